@@ -11,45 +11,158 @@ namespace NautilusVerif.Resample
 
 theorem floor_eq (r : ℚ) : r.floor = ⌊r⌋ := rfl
 
+theorem reps_def (r u : ℚ) : reps r u = ⌊r⌋ + (if u < Int.fract r then 1 else 0) := by
+  unfold reps
+  rw [floor_eq, Int.self_sub_floor]
+
 theorem reps_range (r u : ℚ) : reps r u = ⌊r⌋ ∨ reps r u = ⌊r⌋ + 1 := by
-  sorry
+  rw [reps_def]
+  split_ifs
+  · right; rfl
+  · left; simp
 
 theorem reps_up_iff (r u : ℚ) : reps r u = ⌊r⌋ + 1 ↔ u < Int.fract r := by
-  sorry
+  rw [reps_def]
+  split_ifs with h
+  · simp [h]
+  · simp [h]
 
 theorem mean_spec (r : ℚ) :
     MeasureTheory.volume {u : ℝ | 0 ≤ u ∧ u < 1 ∧ u < ((Int.fract r : ℚ) : ℝ)} = ENNReal.ofReal ((Int.fract r : ℚ) : ℝ)
     ∧ ((⌊r⌋ : ℚ) + Int.fract r = r) := by
-  sorry
+  refine ⟨?_, Int.floor_add_fract r⟩
+  have hlt : ((Int.fract r : ℚ) : ℝ) < 1 := by
+    have := Int.fract_lt_one r
+    exact_mod_cast this
+  have hset : {u : ℝ | 0 ≤ u ∧ u < 1 ∧ u < ((Int.fract r : ℚ) : ℝ)} = Set.Ico (0:ℝ) ((Int.fract r : ℚ) : ℝ) := by
+    ext u
+    simp only [Set.mem_ofPred_eq, Set.mem_Ico]
+    constructor
+    · rintro ⟨h0, _, h2⟩; exact ⟨h0, h2⟩
+    · rintro ⟨h0, h2⟩; exact ⟨h0, lt_trans h2 hlt, h2⟩
+  rw [hset, Real.volume_Ico, sub_zero]
 
 theorem mean_grid (r : ℚ) (N : ℕ) (hN : 0 < N) (m : ℕ) (hm : (m : ℚ) = N * Int.fract r) :
     ((Finset.range N).filter (fun k : ℕ => reps r ((k : ℚ) / (N : ℚ)) = ⌊r⌋ + 1)).card = m := by
-  sorry
+  have hNq : (0 : ℚ) < N := by exact_mod_cast hN
+  have hmN : m ≤ N := by
+    have h1 : (m : ℚ) < N := by
+      rw [hm]
+      have := Int.fract_lt_one r
+      nlinarith
+    have : m < N := by exact_mod_cast h1
+    omega
+  have hfilter : (Finset.range N).filter (fun k : ℕ => reps r ((k : ℚ) / (N : ℚ)) = ⌊r⌋ + 1) = Finset.range m := by
+    ext k
+    simp only [Finset.mem_filter, Finset.mem_range, reps_up_iff]
+    rw [div_lt_iff₀ hNq, mul_comm, ← hm, Nat.cast_lt]
+    constructor
+    · rintro ⟨_, h⟩; exact h
+    · intro h; exact ⟨lt_of_lt_of_le h hmN, h⟩
+  rw [hfilter, Finset.card_range]
+
+theorem reps_nonneg (r u : ℚ) (hr : 0 ≤ r) : 0 ≤ reps r u := by
+  have h0 : 0 ≤ ⌊r⌋ := Int.floor_nonneg.mpr hr
+  rcases reps_range r u with h | h <;> rw [h] <;> omega
 
 theorem noDup (w wmax boost u : ℚ) (hw : 0 ≤ w) (hle : w ≤ wmax) (hpos : 0 < wmax)
     (hb0 : 0 < boost) (hb1 : boost ≤ 1) (hu : 0 ≤ u) :
     0 ≤ reps (relWeight w wmax boost) u ∧ reps (relWeight w wmax boost) u ≤ 1 := by
-  sorry
+  have hq0 : 0 ≤ w / wmax := div_nonneg hw hpos.le
+  have hq1 : w / wmax ≤ 1 := (div_le_one hpos).mpr hle
+  have hr0 : 0 ≤ relWeight w wmax boost := by
+    unfold relWeight; exact mul_nonneg hq0 hb0.le
+  have hr1 : relWeight w wmax boost ≤ 1 := by
+    unfold relWeight; exact mul_le_one₀ hq1 hb0.le hb1
+  refine ⟨reps_nonneg _ _ hr0, ?_⟩
+  rcases lt_or_eq_of_le hr1 with hlt | heq
+  · have hf : ⌊relWeight w wmax boost⌋ = 0 := Int.floor_eq_zero_iff.mpr ⟨hr0, hlt⟩
+    rcases reps_range (relWeight w wmax boost) u with h | h <;> rw [h, hf] <;> norm_num
+  · rw [heq, reps_def]
+    have : ¬ u < Int.fract (1 : ℚ) := by
+      rw [Int.fract_one]; exact not_lt.mpr hu
+    rw [if_neg this]
+    simp
 
 theorem zero_weight (wmax boost u : ℚ) (hu : 0 ≤ u) : reps (relWeight 0 wmax boost) u = 0 := by
-  sorry
+  have h : relWeight 0 wmax boost = 0 := by unfold relWeight; rw [zero_div, zero_mul]
+  rw [h, reps_def]
+  have : ¬ u < Int.fract (0 : ℚ) := by
+    rw [Int.fract_zero]; exact not_lt.mpr hu
+  rw [if_neg this]
+  simp
 
-theorem reps_nonneg (r u : ℚ) (hr : 0 ≤ r) : 0 ≤ reps r u := by
-  sorry
+theorem expand_nil_left {α} (ks : List ℕ) : expand ([] : List α) ks = [] := by
+  cases ks <;> rfl
+
+theorem expand_nil_right {α} (xs : List α) : expand xs [] = [] := by
+  cases xs <;> rfl
+
+theorem expand_cons {α} (x : α) (xs : List α) (k : ℕ) (ks : List ℕ) :
+    expand (x :: xs) (k :: ks) = List.replicate k x ++ expand xs ks := rfl
 
 theorem expand_flatten {α} (xs : List α) (ks : List ℕ) :
     expand xs ks = (List.zipWith (fun x k => List.replicate k x) xs ks).flatten := by
-  sorry
+  induction xs generalizing ks with
+  | nil => simp [expand_nil_left]
+  | cons x xs ih =>
+    cases ks with
+    | nil => simp [expand_nil_right]
+    | cons k ks => simp [expand_cons, ih]
 
 theorem expand_length {α} (xs : List α) (ks : List ℕ) (h : xs.length = ks.length) :
     (expand xs ks).length = ks.sum := by
-  sorry
+  induction xs generalizing ks with
+  | nil =>
+    cases ks with
+    | nil => rfl
+    | cons k ks => simp at h
+  | cons x xs ih =>
+    cases ks with
+    | nil => simp at h
+    | cons k ks =>
+      simp only [List.length_cons, Nat.add_right_cancel_iff] at h
+      simp [expand_cons, ih ks h]
+
+theorem zip_replicate_same {α β} (k : ℕ) (a : α) (b : β) :
+    List.zip (List.replicate k a) (List.replicate k b) = List.replicate k (a, b) := by
+  induction k with
+  | zero => rfl
+  | succ k ih => simp [List.replicate_succ, ih]
 
 theorem expand_zip3 {α β γ} (ps : List α) (ls : List β) (bs : List γ) (ks : List ℕ) :
     expand (List.zip ps (List.zip ls bs)) ks = List.zip (expand ps ks) (List.zip (expand ls ks) (expand bs ks)) := by
-  sorry
+  induction ks generalizing ps ls bs with
+  | nil => simp [expand_nil_right]
+  | cons k ks ih =>
+    cases ps with
+    | nil => simp [expand_nil_left]
+    | cons p ps =>
+      cases ls with
+      | nil => simp [expand_nil_left]
+      | cons l ls =>
+        cases bs with
+        | nil => simp [expand_nil_left]
+        | cons b bs =>
+          simp only [List.zip_cons_cons, expand_cons]
+          rw [ih]
+          rw [List.zip_append (by simp), List.zip_append (by simp), zip_replicate_same, zip_replicate_same]
 
 theorem weights_norm (N : ℕ) (hN : 0 < N) : (N : ℝ) * Real.exp (0 - Real.log N) = 1 := by
-  sorry
+  have hpos : (0 : ℝ) < N := Nat.cast_pos.mpr hN
+  rw [zero_sub, Real.exp_neg, Real.exp_log hpos]
+  exact mul_inv_cancel₀ hpos.ne'
 
 end NautilusVerif.Resample
+
+#print axioms NautilusVerif.Resample.reps_range
+#print axioms NautilusVerif.Resample.reps_up_iff
+#print axioms NautilusVerif.Resample.mean_spec
+#print axioms NautilusVerif.Resample.mean_grid
+#print axioms NautilusVerif.Resample.noDup
+#print axioms NautilusVerif.Resample.zero_weight
+#print axioms NautilusVerif.Resample.reps_nonneg
+#print axioms NautilusVerif.Resample.expand_flatten
+#print axioms NautilusVerif.Resample.expand_length
+#print axioms NautilusVerif.Resample.expand_zip3
+#print axioms NautilusVerif.Resample.weights_norm
